@@ -18,15 +18,14 @@ REGISTRY = {}
 OPEN = {
     "C01": ["C01_parse_sem: forall sty a, wf_media a -> parse_media (render_media sty a) = Ok (complete (sem_media a)) -- proved in layers (tokenizer, unquote, dispatch, assembly, integers, C06-C09); missing: per-tag interpretation lemmas and the float text conversions of EXTINF / DATERANGE durations"],
     "C02": ["C02_parse_sem: forall sty a, wf_master a -> parse_master (render_master sty a) = Ok (sem_master a) -- proved in layers (tokenizer, dispatch, source order, enums, integers); missing: per-tag interpretation lemmas, UFloat frame rates"],
-    "C03": ["C03_parsed_built: forall s p, parse_media s = Ok p -> exists raws, built_ok p raws /\\ wf_media p up to the float/duration conditions -- not proved yet (numbers, explicit ranges, durations and key shapes of parse results are proved separately in C06-C09); C03_text_roundtrip is stated for well-formed built values and evaluated on a parsed example",
-            "dur_rt / float_rt: decidable hypotheses on the modelled std conversions (Duration -> f64 -> shortest decimal -> f64 -> Duration), part of wf_media; not theorems",
-            "byte-identical second serialisation and the order inside a key list: FALSE in general (known findings D20, D9-K1); keys are compared as sets"],
+    "C03": ["C03_parsed_wf: forall s p, parse_media s = Ok p -> wf_media p = true -- not a theorem and not true unconditionally: besides the float/duration conditions (dur_rt, float_rt: decidable hypotheses on the modelled std conversions) a parse result can hold an unquoted SCTE35-* value with a comma or an EXTINF title that the writer cannot express; C03_roundtrip is stated for the well-formed parse results (wf_media, decidable, evaluated on a parsed example) and membership is sampled by the correspondence check",
+            "byte-identical second serialisation and the order inside a key list: FALSE in general (known findings D20, D9-K1); keys are compared as sets, a map's keys are the reader's keys"],
     "C04": ["ufloat_rt x (FRAME-RATE) / float_rt x (TIME-OFFSET) for every f32 with at most 3 decimals: C04_roundtrip holds for every parse result under this decidable hypothesis on the modelled std float conversions; the hypothesis itself is not a theorem (evaluated on examples, exercised by the correspondence check)"],
     "C05": ["C05_cost: cost_parse s <= c1*|s| + c2*|items s|*K s -- no cost model was built; time scaling is measured only (thorough tier)"],
     "C12": ["C12_restyle: forall sty1 sty2 a, wf a -> parse (render sty1 a) = parse (render sty2 a) -- corollary of the open C01/C02 statements; attribute order proved for 3 tags + generic theorem, not instantiated for all 12 attribute-list tags; header-tag and segment-tag order permutations not proved (sampled)"],
     "C14": ["C14_T for EXT-X-KEY / STREAM-INF as an iff over all attribute lists: only the invariant direction is proved for keys; stream tags are by typing (BANDWIDTH / URI are required fields of the result)"],
     "C16": ["C16_slide: sliding the window keeps number/URI/range/keys/IV -- not proved (needs the restatement function and C06-C08 composed); sampled by the correspondence check"],
-    "C18": ["C18_float / C18_ufloat / C18_duration / C18_tags: parse (print v) = v for every finite f32, every duration below 10^6 s and every tag value -- rests on the modelled std float conversions; validated by correspondence and sweep, not proved"],
+    "C18": ["C18_float / C18_ufloat / C18_duration: parse (print v) = v for every finite f32 and every duration below 10^6 s -- rests on the modelled std float conversions; enters the tag theorems as the decidable hypotheses float_rt / ufloat_rt / dur_rt (evaluated on sample values in C18_float_hypotheses), validated by correspondence and sweep, not proved"],
     "C20": ["C20_agree: for content without explicit numbers, builder_run (calls a order) = parse_media (render canon a) up to obs -- only the shared build() and the setter algebra are proved; agreement of the two paths is sampled"],
 }
 
